@@ -6,7 +6,7 @@
     PublisherConfig, every answer script of the wrapped publisher, every sequence of calls over a
     heap of (possibly re-published) objects, every emit/Ack/Nack/Close sequence, every sequence of
     handler outcomes. *)
-From WM Require Import Base.Prelude Message.Model Decor.Model Decor.Monitor Decor.Heap Decor.Proofs Decor.SubProofs Decor.SubAccept Decor.HeapProofs Decor.HeapRefine.
+From WM Require Import Base.Prelude Message.Model Handler.RouterHandle Decor.RouterMetrics Decor.Model Decor.Monitor Decor.Heap Decor.Proofs Decor.SubProofs Decor.SubAccept Decor.HeapProofs Decor.HeapRefine Decor.HeapCount Decor.MwStack Decor.MwStackProofs.
 
 (** ** publisher decorators are transparent *)
 
@@ -190,14 +190,33 @@ Theorem C20_duplicates_acceptor : forall st script topic idx h,
                     (hreads (ho_heap (publish_h st script topic idx h)) idx)) = true.
 Proof. exact publish_h_call_ok_dup. Qed.
 
-(** the acceptor the check runs ([pub_monitor_any]) accepts every run of the in-place model whose
-    batches repeat nothing.  Partial for batches WITH repetition: there [call_ok_dup] is proved
-    ([C20_duplicates_acceptor]) but the counting clause is compared with the code, not proved *)
+(** the publish metric of one in-place call, ANY batch (the same object any number of times): one
+    observation iff the call reaches a metrics layer with a non-empty batch whose first position holds
+    an uncounted object; label success = the call returned nil.  (Simulation between the in-place and
+    the by-value run that ignores the transform trail — the only thing repetition changes.) *)
+Theorem C20_inplace_counted_once : forall st script topic idx h, hvalid_all h idx ->
+  ho_obs (publish_h st script topic idx h) =
+  match hreads h idx with
+  | [] => []
+  | m0 :: _ => if reaches_metrics st (hreads h idx) && negb (pm_mark m0)
+               then [pub_label (first_metrics_name st) m0 (ho_res (publish_h st script topic idx h))]
+               else []
+  end.
+Proof. exact publish_h_obs. Qed.
+Theorem C20_inplace_simulates : forall st script topic idx h msgs,
+  hvalid_all h idx -> map untrail (hreads h idx) = map untrail msgs ->
+  ho_obs (publish_h st script topic idx h) = po_obs (publish st script topic msgs)
+  /\ ho_res (publish_h st script topic idx h) = po_res (publish st script topic msgs)
+  /\ ho_script (publish_h st script topic idx h) = po_script (publish st script topic msgs).
+Proof. exact publish_h_simulates. Qed.
+
+(** the acceptor the check runs ([pub_monitor_any]) accepts EVERY run of the in-place model: any
+    stack, heap, script and call sequence, batches with or without repeated objects *)
 Theorem C20_publish_inplace_model_accepted : forall st heap script calls tab,
-  good_calls (length heap) calls ->
+  valid_calls (length heap) calls ->
   counts_agree plabel_eqb tab (ps_obs (prun_h st heap script calls)) = true ->
   pub_monitor_any st (pobs_run_h st (PS heap script [] [] []) calls) tab = true.
-Proof. exact pub_monitor_any_model. Qed.
+Proof. exact pub_monitor_any_model_all. Qed.
 
 (** ** a wrapped publisher that panics (script answer [e_panic]) *)
 Theorem C20_publish_panic_escapes : forall st script topic msgs,
@@ -293,6 +312,28 @@ Theorem C20_subscribe_model_accepted : forall stk heap ops crets tab,
   sub_monitor stk heap ops (sseen_of_run stk heap ops crets tab) = true.
 Proof. exact sub_monitor_model. Qed.
 
+(** ** inside a Router (composition with C02's [handle]) *)
+
+(** the handler's outputs hit a wrapped publisher that PANICS: the Router nacks the consumed message
+    (C02), the subscriber counter says nacked, the publish metric records exactly one failed call
+    (the repaired decorator), the handler metric says success (the handler returned without error) *)
+Theorem C20_router_publisher_panics : forall h s p n,
+  let m := RMsg HOk (S n) PubPanic in
+  st (fst (rm_handle m)) = Nacked
+  /\ rm_sobs h s m = [(h, s, false)]
+  /\ rm_pobs h p m = [(h, p, false)]
+  /\ run_mw true 1 [(h, rm_out m)] = [(h, true)].
+Proof. exact router_publisher_panics. Qed.
+(** every message: acked label iff C02's [handled_ok]; one publish observation iff the handler
+    returned a non-empty output without error, successful iff the publisher accepted *)
+Theorem C20_router_metrics : forall h s p m,
+  rm_sobs h s m = [(h, s, handled_ok PubReal (rm_pub m) (rm_chain m))]
+  /\ rm_pobs h p m = match rm_out m, rm_nouts m with
+                     | HOk, S _ => [(h, p, match rm_pub m with PubAccept => true | _ => false end)]
+                     | _, _ => []
+                     end.
+Proof. exact router_metrics_spec. Qed.
+
 (** ** handler middleware *)
 
 (** (repaired code) applied once: every invocation counted exactly once; success="true" exactly
@@ -308,7 +349,28 @@ Proof. exact mw_counted_layers. Qed.
 (** the pinned code recorded a panicking handler as a success (D11, repaired) *)
 Theorem C20_handler_panic_refuted : exists calls l, hcount l (run_mw false 1 calls) <> hspec l calls.
 Proof. exact mw_panic_refuted. Qed.
-(** the middleware applied twice counts every invocation twice (known finding) *)
+(** the middleware in a handler chain (Decor/MwStack.v: applications LM and Retry layers LR n in any
+    order).  Repaired middleware (per-invocation mark): any chain behaves exactly like the chain with
+    every application INSIDE another one removed, under the pinned semantics of a single application —
+    applying the middleware again is a no-op; Retry outside, between or inside is unaffected *)
+Theorem C20_handler_chain_idempotent : forall h st script,
+  heval true st false h script = heval false (erase_inner false st) false h script.
+Proof. exact heval_idempotent. Qed.
+Theorem C20_handler_chain_runs_idempotent : forall h st top script,
+  hrun true st h top script = hrun false (erase_inner false st) h top script.
+Proof. exact hrun_idempotent. Qed.
+(** k applications, Retry anywhere between them: exactly ONE observation per invocation of the
+    chain, labelled with the outcome of that invocation *)
+Theorem C20_handler_chain_counted_once : forall h st script,
+  snd (heval true (LM :: st) false h script)
+  = [(h, success_label true (fst (fst (heval true st true h script))))].
+Proof. exact heval_once. Qed.
+(** the pinned middleware applied twice counted twice (refuted; repaired by fix c7c0c5d) *)
+Theorem C20_handler_chain_twice_refuted :
+  snd (heval false [LM; LM] false 5%N [HOk]) = [(5%N, true); (5%N, true)].
+Proof. exact heval_pinned_twice. Qed.
+
+(** the flat model of the pinned middleware: applied twice counts every invocation twice *)
 Theorem C20_handler_twice_refuted : exists calls l, hcount l (run_mw true 2 calls) <> hspec l calls.
 Proof. exact mw_twice_refuted. Qed.
 
@@ -342,6 +404,8 @@ Print Assumptions C20_inplace_refines.
 Print Assumptions C20_inplace_sequence_refines.
 Print Assumptions C20_duplicates_transparent.
 Print Assumptions C20_duplicates_acceptor.
+Print Assumptions C20_inplace_counted_once.
+Print Assumptions C20_inplace_simulates.
 Print Assumptions C20_publish_inplace_model_accepted.
 Print Assumptions C20_publish_panic_escapes.
 Print Assumptions C20_publish_label_repaired.
@@ -354,11 +418,17 @@ Print Assumptions C20_subscriber_close_once.
 Print Assumptions C20_received_counted_once.
 Print Assumptions C20_received_table_counts.
 Print Assumptions C20_subscribe_model_accepted.
+Print Assumptions C20_router_publisher_panics.
+Print Assumptions C20_router_metrics.
 Print Assumptions C20_handler_counted_once.
 Print Assumptions C20_handler_acceptor_sound.
 Print Assumptions C20_handler_layers.
 Print Assumptions C20_handler_panic_refuted.
 Print Assumptions C20_handler_twice_refuted.
+Print Assumptions C20_handler_chain_idempotent.
+Print Assumptions C20_handler_chain_runs_idempotent.
+Print Assumptions C20_handler_chain_counted_once.
+Print Assumptions C20_handler_chain_twice_refuted.
 
 (** non-vacuity: metrics twice around a delay layer around a transform; a batch of two — the
     first already carries a delay, the second gets the generator's; one call of the wrapped
@@ -403,3 +473,12 @@ Example C20_witness_duplicate :
   map pm_trail (ho_heap o) = [[11%N; 11%N]] /\ map pm_for (ho_heap o) = [MDur 3]
   /\ ho_ev o = [EvGen 6%N 0%N; EvInner 6%N (hreads (ho_heap o) [0; 0])] /\ ho_res o = None.
 Proof. vm_compute. repeat split. Qed.
+
+(** Retry outside two applications: every attempt is an invocation and is observed once; Retry
+    between them: the outer application observes the whole (retried) invocation once *)
+Example C20_witness_retry_outside :
+  snd (heval true [LR 2; LM; LM] false 5%N [HErr; HErr; HOk]) = [(5%N, false); (5%N, false); (5%N, true)].
+Proof. exact heval_retry_outside. Qed.
+Example C20_witness_retry_between :
+  snd (heval true [LM; LR 2; LM] false 5%N [HErr; HErr; HOk]) = [(5%N, true)].
+Proof. exact heval_retry_between. Qed.
